@@ -253,6 +253,76 @@ def pairwise_eq_check(ctx, values, prop="C05", where="pairwise-eq"):
                            "x_type": type(x).__name__, "y_type": type(y).__name__}, live={"x": x, "y": y})
 
 
+def denotation(tree, leafvals, pts, memo=None):
+    """Membership vector of the SET a tree denotes, computed by the model from the values of its leaves
+    only (never from intermediate library results).  None if a leaf is missing / not readable."""
+    memo = {} if memo is None else memo
+    k = id(tree)
+    if k in memo:
+        return memo[k]
+    kind = tree[0]
+    if kind in ("leaf", "fss", "any", "rany", "empty"):
+        v = leafvals.get(k)
+        r = iv.vector(v, pts) if v is not None and iv.readable(v) else None
+    elif kind == "not":
+        x = denotation(tree[1], leafvals, pts, memo)
+        r = None if x is None else tuple(not p for p in x)
+    else:
+        x = denotation(tree[1], leafvals, pts, memo)
+        y = denotation(tree[2], leafvals, pts, memo)
+        if x is None or y is None:
+            r = None
+        elif kind == "and":
+            r = tuple(p and q for p, q in zip(x, y))
+        else:
+            r = tuple(p or q for p, q in zip(x, y))
+    memo[k] = r
+    return r
+
+
+def denotation_check(ctx, roots, leafvals, prop="C05"):
+    """C05's 'consequently' clause along whole expressions: for results reached through any chain of operators,
+    is_empty()/is_any() and == must agree with the sets the expressions denote (leaf sets combined by the model)."""
+    from .workloads import specs as W
+
+    usable = [(t, r) for t, r in roots if r is not None and iv.readable(r)]
+    if not usable:
+        return
+    leaves = [v for v in leafvals.values() if iv.readable(v)]
+    pts = iv.points(*leaves, *[r for _, r in usable])
+    memo = {}
+    den = []
+    for t, r in usable:
+        e = denotation(t, leafvals, pts, memo)
+        if e is None:
+            continue
+        den.append((t, r, e))
+        monitor.bump("denotation")
+        ctx.evaluations += 1
+        live = {"result": r, "tree": t, "leafvals": leafvals}
+        if bool(r.is_empty()) != (not any(e)):
+            violation(prop, "denotation", "is_empty() disagrees with the set the expression denotes",
+                      {"tree": W.tree_text(t)[:400], "result": iv.describe(r)[:300], "is_empty": bool(r.is_empty()),
+                       "denoted_empty": not any(e), "group": "den-empty"}, live=live)
+        if bool(r.is_any()) != all(e):
+            violation(prop, "denotation", "is_any() disagrees with the set the expression denotes",
+                      {"tree": W.tree_text(t)[:400], "result": iv.describe(r)[:300], "is_any": bool(r.is_any()),
+                       "denoted_any": all(e), "group": "den-any"}, live=live)
+    for i in range(len(den)):
+        for j in range(i + 1, len(den)):
+            (t1, x, e1), (t2, y, e2) = den[i], den[j]
+            same = e1 == e2
+            eq = bool(x == y)
+            monitor.bump("denotation-eq")
+            if same and x is not y:
+                ctx.shape("same-denotation-different-path")
+            if eq != same:
+                violation(prop, "denotation", "== between two results does not coincide with equality of the denoted sets",
+                          {"x_tree": W.tree_text(t1)[:300], "y_tree": W.tree_text(t2)[:300], "x": iv.describe(x)[:200],
+                           "y": iv.describe(y)[:200], "x==y": eq, "same_denotation": same, "group": "den-eq"},
+                          live={"x": x, "y": y, "x_tree": t1, "y_tree": t2, "leafvals": leafvals})
+
+
 # ------------------------------------------------------------------------------------------------
 # C06: text round-trip
 # ------------------------------------------------------------------------------------------------
